@@ -53,6 +53,9 @@ func (e *Engine) step(f *frame, stp **State, b *ssa.BasicBlock, ins []guarded, i
 			}
 		}
 	case *ssa.Store:
+		if _, toElem := x.Addr.(*ssa.IndexAddr); toElem && e.pure == 0 {
+			e.escapeAcrossIterations(f, b, e.get(f, st, x.Val))
+		}
 		e.store(st, e.get(f, st, x.Addr), e.get(f, st, x.Val), cur, x.Pos())
 	case *ssa.UnOp:
 		switch x.Op {
